@@ -442,6 +442,14 @@ def run(repo: Repo, rep: Report, tier: str) -> None:
         rep.check(reserved, "C14-R9", f"reserved-signal check covers {cname}.{fld}", "_emit_reserved_signal_diagnostic called" if reserved else "slot is never tested against the reserved table", h.loc())
     # bare bundle comparison across expression-carrying statements
     central = any(call_name(c) == "_is_naked_bundle_comparison" for fn in ("infer_expr_type", "infer_binary_op_type", "get_expr_type") for c in calls_in(an.methods[fn].node))
+    # ... or the type inference itself refuses it: the arm of infer_binary_op_type that types `bundle CMP x` reports an error (the filter form types its condition's
+    # operands one by one and never asks for the type of the comparison as a whole, so whoever does ask uses the comparison as a value)
+    from .util import cguards as _cg9b
+    ibo = an.methods["infer_binary_op_type"]
+    for c9b in calls_in(ibo.node, "error"):
+        g9b = [g for g, pol in _cg9b(ibo, c9b) if pol]
+        if any("BundleValue" in g and "isinstance(" in g for g in g9b) and any("COMPARISON_OPS" in g for g in g9b):
+            central = True
     for vname, carries in (("visit_DeclStmt", "value"), ("visit_AssignStmt", "value"), ("visit_ExprStmt", "expr"), ("visit_ReturnStmt", "expr")):
         vm = an.methods.get(vname)
         if vm is None:
